@@ -691,6 +691,81 @@ func TestC08CasterMisuse(t *testing.T) {
 				known2   = vkit.Known(nil, sigF2)
 			)
 			inRange := func(c int64) bool { return c >= 0 && c <= math.MaxInt32 }
+			// ---- optional prologue: the misuse happens WHILE a Send is in flight (R receivers registered, Send armed
+			// and blocked, then an unbalanced negative Add). The Add must panic; once the registered receivers have
+			// taken their copies the Send must panic too (its end-of-broadcast validation), and — the mathematical
+			// count now being negative — every later call must panic as well.
+			if rapid.IntRange(0, 3).Draw(t, "inFlightMisuse") == 0 {
+				R := rapid.IntRange(1, 3).Draw(t, "R")
+				extra := rapid.IntRange(1, 3).Draw(t, "extra")
+				x.Add(R)
+				sendOp := vkit.Launch("Send", func() any { return x.Send(9) })
+				synctest.Wait()
+				if sendOp.Finished() {
+					vkit.Fail(t, "C08/send-early", "Send returned %v / %v although %d registered receivers have not received", sendOp.Res, sendOp.Panic, R)
+				}
+				addOp := vkit.Launch("Add", func() any { return x.Add(-(R + extra)) })
+				synctest.Wait()
+				if !addOp.Finished() || addOp.Panic == nil {
+					go func() {
+						for {
+							select {
+							case <-x.C:
+							case <-time.After(time.Minute):
+								return
+							}
+						}
+					}()
+					vkit.Fail(t, "C08/misuse-unnoticed", "an unbalanced Add(%d) with %d registered receivers during a Send did not panic (finished=%v result=%v)\ncase: %v", -(R + extra), R, addOp.Finished(), addOp.Res, trace)
+				}
+				// only now do the registered receivers take their copies, so that the Send reaches its validation
+				for i := 0; i < R; i++ {
+					go func() {
+						select {
+						case <-x.C:
+						case <-time.After(time.Minute):
+						}
+					}()
+				}
+				synctest.Wait()
+				trace = append(trace, fmt.Sprintf("in-flight: Add(%d) Send || Add(%d) -> Add %v/%v Send %v/%v", R, -(R+extra), addOp.Res, addOp.Panic, sendOp.Res, sendOp.Panic))
+				if addOp.Finished() && addOp.Panic == nil {
+					vkit.Fail(t, "C08/misuse-unnoticed", "an unbalanced Add(%d) with %d registered receivers during a Send returned %v\ncase: %v", -(R + extra), R, addOp.Res, trace)
+				}
+				if sendOp.Finished() && sendOp.Panic == nil {
+					vkit.Fail(t, "C08/misuse-unnoticed", "Send returned %v although an unbalanced Add broke the invariants while it was in flight\ncase: %v", sendOp.Res, trace)
+				}
+				if addOp.Finished() && sendOp.Finished() {
+					anyPanic = true
+					// count is -(extra): out of range. No compensating call is issued here (see the listed finding);
+					// every one of these calls must panic
+					for _, d := range []int{0, -1, 0} {
+						res, pv := vkit.Call(func() any { return x.Add(d) })
+						trace = append(trace, fmt.Sprintf("Add(%d)=%v/%v", d, res, pv))
+						afterBad++
+						if pv == nil {
+							vkit.Fail(t, "C08/misuse-unnoticed", "Add(%d) returned %v after an unbalanced Add during a Send left the count below zero: every later call must panic\ncase: %v", d, res, trace)
+						}
+					}
+					op := vkit.Launch("Send", func() any { return x.Send(1) })
+					synctest.Wait()
+					if !op.Finished() || op.Panic == nil {
+						trace = append(trace, fmt.Sprintf("Send=%v/%v finished=%v", op.Res, op.Panic, op.Finished()))
+						go func() {
+							for {
+								select {
+								case <-x.C:
+								case <-time.After(time.Minute):
+									return
+								}
+							}
+						}()
+						vkit.Fail(t, "C08/misuse-unnoticed", "Send did not panic after an unbalanced Add during an earlier Send left the count below zero\ncase: %v", trace)
+					}
+				}
+				st.Case(trace, true, "misuse-during-send")
+				return
+			}
 			for i := 0; i < n; i++ {
 				isSend := rapid.IntRange(0, 5).Draw(t, "isSend") == 0
 				if isSend {
